@@ -11,6 +11,7 @@ package main
 import (
 	"bufio"
 	"fmt"
+	"math"
 	"math/rand"
 	"os"
 	"time"
@@ -34,7 +35,24 @@ type inst struct {
 }
 
 func (i *inst) String() string {
+	if i.sh.ReadN != 0 {
+		return fmt.Sprintf("%s:%d:%d:%d:%d %s", i.op.Name, i.v, i.sh.Offset, i.sh.HWM, i.sh.ReadN, gen.Hex(i.body))
+	}
 	return fmt.Sprintf("%s:%d:%d:%d %s", i.op.Name, i.v, i.sh.Offset, i.sh.HWM, gen.Hex(i.body))
+}
+
+// buildFetch renders a fetch response with a record set of the given physical layout; readN as in connfake.Shape.
+func buildFetch(r *rand.Rand, v int16, magic int8, n, batches int, codec protocol.Attributes, readN int) *inst {
+	op := connfake.OpByName("fetch")
+	sh := &connfake.Shape{Topic: topic, Offset: int64(r.Intn(50)), ReadN: readN}
+	set, msgs, base, err := connfake.RecordSet(r, magic, sh.Offset, n, batches, codec)
+	if err != nil {
+		panic(err)
+	}
+	sh.Offset, sh.Set, sh.Want, sh.HWM = base, set, msgs, base+int64(n)
+	w := &connfake.W{}
+	op.Build(v, w, r, sh)
+	return &inst{op, v, w.B, sh}
 }
 
 // build renders a response body for op at version v with the given error codes placed in its error fields.
@@ -150,6 +168,88 @@ func scenario(a, b *inst) (line string, slow bool) {
 	return fmt.Sprintf("c11 %s %s %s\t%s", gen.Hex([]byte(topic)), a, b, impl), time.Since(t0) > time.Second
 }
 
+// chain: A is answered with a response carrying a foreign correlation id, then B and C on the same Conn.
+//
+//	c11x <topic hex> <id delta> <A> <bodyA> <B> <bodyB> <C> <bodyC>\t<resA> <resB> <resC>
+func chain(a, b, c *inst, delta int32) (line string, slow bool) {
+	sel := map[int16]int16{c.op.Key: c.v}
+	sel[b.op.Key] = b.v
+	sel[a.op.Key] = a.v
+	t0 := time.Now()
+	conn, br := connfake.Start(topic, connfake.VersionTable(sel))
+	br.Push(a.op.Key, connfake.Resp{Body: a.body, Cut: -1, IDDelta: delta})
+	br.Push(b.op.Key, connfake.Resp{Body: b.body, Cut: -1})
+	br.Push(c.op.Key, connfake.Resp{Body: c.body, Cut: -1})
+	res := []string{"hang", "hang", "hang"}
+	for i, x := range []*inst{a, b, c} {
+		res[i], _ = guarded(conn, x)
+		if res[i] == "hang" {
+			break
+		}
+	}
+	go func() { conn.Close(); br.Stop() }()
+	return fmt.Sprintf("c11x %s %d %s %s %s\t%s %s %s", gen.Hex([]byte(topic)), delta, a, b, c, res[0], res[1], res[2]), time.Since(t0) > time.Second
+}
+
+// badSize: A's response carries the size prefix `size` instead of len(body)+4, B follows on the same Conn.
+//
+//	c11z <topic hex> <size> <A> <bodyA> <B> <bodyB>\t<resA> <resB>
+func badSize(a, b *inst, size int32) (line string, slow bool) {
+	sel := map[int16]int16{b.op.Key: b.v}
+	sel[a.op.Key] = a.v
+	t0 := time.Now()
+	conn, br := connfake.Start(topic, connfake.VersionTable(sel))
+	br.Push(a.op.Key, connfake.Resp{Body: a.body, Cut: -1, SizeSet: true, Size: size})
+	br.Push(b.op.Key, connfake.Resp{Body: b.body, Cut: -1})
+	resA, _ := guarded(conn, a)
+	resB := "hang"
+	if resA != "hang" {
+		resB, _ = guarded(conn, b)
+	}
+	go func() { conn.Close(); br.Stop() }()
+	return fmt.Sprintf("c11z %s %d %s %s\t%s %s", gen.Hex([]byte(topic)), size, a, b, resA, resB), time.Since(t0) > time.Second
+}
+
+// pipelined: A and B are both written before the broker answers anything (two goroutines on one Conn), the two
+// response frames then arrive back to back.  Both operations run once before (version negotiation out of the way);
+// forge(id of B) may append to A's body once the correlation ids are known.
+//
+//	c11p <topic hex> <correlation id of A> <A> <bodyA> <B> <bodyB>\t<resA> <resB>
+func pipelined(r *rand.Rand, a, b *inst, forge func(idB int32)) (line string, slow bool) {
+	t0 := time.Now()
+	conn, br := connfake.Start(topic, connfake.VersionTable(map[int16]int16{a.op.Key: a.v, b.op.Key: b.v}))
+	for _, x := range []*inst{a, b} {
+		w, _ := build(r, x.op, x.v, nil, false)
+		br.Push(x.op.Key, connfake.Resp{Body: w.body, Cut: -1})
+		if res, _ := guarded(conn, w); res != "ok" {
+			go func() { conn.Close(); br.Stop() }()
+			return fmt.Sprintf("c11p %s 0 %s %s\twarmup-%s -", gen.Hex([]byte(topic)), a, b, res), false
+		}
+	}
+	idA := len(br.Log()) + 1
+	forge(int32(idA + 1))
+	br.Push(a.op.Key, connfake.Resp{Body: a.body, Cut: -1})
+	br.Push(b.op.Key, connfake.Resp{Body: b.body, Cut: -1})
+	br.Hold(2, -1)
+	n0 := len(br.Log())
+	call := func(i *inst) chan string {
+		ch := make(chan string, 1)
+		go func() {
+			r, _ := guarded(conn, i)
+			ch <- r
+		}()
+		return ch
+	}
+	chA := call(a)
+	for i := 0; i < 5000 && len(br.Log()) < n0+1; i++ {
+		time.Sleep(100 * time.Microsecond)
+	}
+	chB := call(b)
+	resA, resB := <-chA, <-chB
+	go func() { conn.Close(); br.Stop() }()
+	return fmt.Sprintf("c11p %s %d %s %s\t%s %s", gen.Hex([]byte(topic)), idA, a, b, resA, resB), time.Since(t0) > time.Second
+}
+
 var codes = []int16{1, 3, 5, 6, 7, 9, 14, 15, 16, 19, 20, 22, 25, 27, 29, 36, 41, -1, 87, 32767, -32768}
 
 func main() {
@@ -175,7 +275,7 @@ func main() {
 		for {
 			f := connfake.OpByName(followers[r.Intn(len(followers))])
 			if f.Name == "apiVersions" {
-				continue
+				continue // a scripted ApiVersions response would be taken by the version negotiation of the first operation
 			}
 			v := f.Versions[r.Intn(len(f.Versions))]
 			if f.Key == a.op.Key {
@@ -254,12 +354,9 @@ func main() {
 	}
 	// framing errors: a fully delivered frame whose body is NOT an encoding of the layout (trailing bytes, or the
 	// last bytes missing with a consistent size prefix): "after a framing error every later operation fails".
-	// ApiVersions (no expectZeroSize in the Go code) and list-offsets with an error code (kafka error returned
-	// from inside the partition loop, see Props/C11 listOffsets_two_partitions_counterexample) are left out.
+	// List-offsets with an error code (kafka error returned from inside the partition loop, see Props/C11
+	// listOffsets_two_partitions_counterexample) is left out.
 	for _, op := range connfake.Ops {
-		if op.Name == "apiVersions" {
-			continue
-		}
 		for _, v := range op.Versions {
 			for rep := 0; rep < 2; rep++ {
 				for _, withErr := range []bool{false, true} {
@@ -281,6 +378,202 @@ func main() {
 			}
 		}
 	}
+	// arbitrary bytes: the theorems hold for EVERY body, so the model must agree with the code on damaged frames too.
+	// A well-formed frame gets one byte overwritten (anywhere, array counts included — since the fix for the
+	// unbounded reflect.MakeSlice in read.go a corrupted count fails without allocating) or one array count changed
+	// by a little.  The monitor: a frame that is still an encoding of the layout is judged as such; any other frame is
+	// a framing error (A fails and so does B, or a broker error is reported and the Conn stays aligned).  Fetch and
+	// ApiVersions have their own families (their documented corners — watermark, trailing bytes — are one byte away).
+	nfuzz := 12
+	if thorough {
+		nfuzz = 80
+	}
+	for _, op := range connfake.Ops {
+		if op.Name == "fetch" {
+			continue
+		}
+		for _, v := range op.Versions {
+			for i := 0; i < nfuzz; i++ {
+				sh := &connfake.Shape{Topic: topic}
+				w := &connfake.W{}
+				op.Build(v, w, r, sh)
+				if len(w.B) == 0 {
+					continue
+				}
+				if len(w.CntPos) > 0 && r.Intn(3) == 0 {
+					c := w.CntPos[r.Intn(len(w.CntPos))]
+					w.B[c+3] = byte(int(w.B[c+3]) + []int{-1, 1, 2}[r.Intn(3)]) // count ± a little (0 − 1 = 255 elements: still harmless)
+				} else {
+					p := r.Intn(len(w.B))
+					w.B[p] = gen.Bytes(r, 1)[0]
+				}
+				a := &inst{op, v, w.B, sh}
+				emit(a, follower(a))
+			}
+		}
+	}
+	// damaged fetch HEADERS (the part the header programs of read.go parse; the record set itself is the message-set
+	// reader's business): one byte overwritten before the set
+	for _, v := range connfake.OpByName("fetch").Versions {
+		for i := 0; i < nfuzz; i++ {
+			magic := int8(2)
+			if v < 4 {
+				magic = 1
+			}
+			a := buildFetch(r, v, magic, 2, 1, 0, 0)
+			hdrLen := len(a.body) - len(a.sh.Set)
+			if hdrLen <= 0 {
+				continue
+			}
+			a.body = append([]byte{}, a.body...)
+			a.body[r.Intn(hdrLen)] = gen.Bytes(r, 1)[0]
+			emit(a, follower(a))
+		}
+	}
+	// partial reads: read j of the n records of a fetch response (every j, and Close at once), then Close, then the next
+	// operation — plain and every codec, one batch and two batches, message formats 1 and 2.  Batch.Close must leave
+	// the Conn at the next frame whatever was read (Conn.ReadMessage / Conn.Read read exactly one record).
+	type layout struct {
+		magic      int8
+		n, batches int
+	}
+	for _, v := range connfake.OpByName("fetch").Versions {
+		for codec := protocol.Attributes(0); codec <= 4; codec++ {
+			for _, l := range []layout{{2, 3, 1}, {2, 5, 2}, {1, 3, 1}} {
+				if (l.magic == 2 && v < 4) || (l.magic == 1 && codec > 2) {
+					continue
+				}
+				for j := -1; j <= l.n; j++ {
+					if j == 0 {
+						continue
+					}
+					a := buildFetch(r, v, l.magic, l.n, l.batches, codec, j)
+					emit(a, follower(a))
+				}
+				// Conn.ReadMessage and Conn.Read: one record, then the batch is closed by the library itself
+				for _, via := range []string{"ReadMessage", "Read"} {
+					a := buildFetch(r, v, l.magic, l.n, l.batches, codec, 1)
+					a.sh.Via = via
+					emit(a, follower(a))
+				}
+			}
+		}
+	}
+	// a response AT the high watermark that nevertheless carries a message set (C11-D32): RequestTimedOut is reported,
+	// the set must be skipped, the next operation as on a fresh Conn
+	for _, v := range connfake.OpByName("fetch").Versions {
+		for _, magic := range []int8{1, 2} {
+			if magic == 2 && v < 4 {
+				continue
+			}
+			a := buildFetch(r, v, magic, 3, 1, 0, 0)
+			a.sh.HWM = a.sh.Offset
+			w := &connfake.W{}
+			a.op.Build(v, w, r, a.sh)
+			a.body = w.B
+			emit(a, follower(a))
+		}
+	}
+	// two requests in flight: when A's frame turns out to be a framing error and the Conn is closed, B — already
+	// written, its caller waiting for the read lock — must fail too; in particular it must not be served what is left
+	// of A's frame in the read buffer.  A's frame: well-formed + a complete forged frame carrying B's correlation id and
+	// a well-formed body for B reporting error 41 inside A's size (B's real response reports none); the same with an error code in A (a drain skips it: harmless);
+	// one byte short; well-formed (control).
+	for _, op := range connfake.Ops {
+		if op.Name == "fetch" || op.Name == "apiVersions" || nslow >= 5 {
+			continue
+		}
+		for _, v := range op.Versions {
+			for variant := 0; variant < 4; variant++ {
+				var errs []int16
+				if variant == 1 {
+					errs = []int16{codes[r.Intn(len(codes))]}
+				}
+				a, _ := build(r, op, v, errs, false)
+				b := follower(a)
+				for b.op.Name == "fetch" {
+					b = follower(a)
+				}
+				b, _ = build(r, b.op, b.v, nil, false) // B's real response reports no error, the forged one does
+				forge := func(int32) {}
+				switch variant {
+				case 0, 1:
+					forge = func(idB int32) {
+						forged, _ := build(r, b.op, b.v, []int16{41}, false)
+						a.body = append(append([]byte{}, a.body...), connfake.Frame(idB, forged.body)...)
+					}
+				case 2:
+					a.body = a.body[:len(a.body)-1]
+				}
+				l, slow := pipelined(r, a, b, forge)
+				fmt.Fprintln(out, l)
+				ncases++
+				if slow {
+					nslow++
+				}
+			}
+		}
+	}
+	// a size prefix below 4 (the correlation id alone takes 4 bytes), negative ones included: a framing error, A and
+	// every later operation fail — promptly; and prefixes a few bytes off the real length: model and code must agree
+	// on what happens to the stream.
+	for _, op := range connfake.Ops {
+		if nslow >= 5 {
+			break
+		}
+		for _, v := range op.Versions {
+			a, _ := build(r, op, v, nil, false)
+			real := int32(len(a.body) + 4)
+			sizes := []int32{math.MinInt32, -1, 0, 3, 4, real - 1, real + 2}
+			if !thorough {
+				sizes = []int32{sizes[r.Intn(4)], sizes[4+r.Intn(3)]}
+			}
+			for _, size := range sizes {
+				if op.Name == "fetch" && size > 4 {
+					continue // the message-set reader runs to the deadline on a prefix that promises more
+				}
+				l, slow := badSize(a, follower(a), size)
+				fmt.Fprintln(out, l)
+				ncases++
+				if slow {
+					nslow++
+				}
+			}
+		}
+	}
+	// a response nobody asked for (foreign correlation id) is a framing error that does NOT close the Conn
+	// (io.ErrNoProgress, nothing consumed): every later operation must fail too — promptly.  Three operations in a row.
+	nchain := 0
+	for _, op := range connfake.Ops {
+		if op.Name == "apiVersions" || op.Name == "fetch" || nslow >= 5 { // (same remark: responses are scripted per api key)
+			continue
+		}
+		for _, v := range op.Versions {
+			a, _ := build(r, op, v, nil, false)
+			b := follower(a)
+			c := follower(a)
+			for c.op.Key == b.op.Key && c.v != b.v {
+				c = follower(a)
+			}
+			l, slow := chain(a, b, c, int32(1+r.Intn(9)))
+			fmt.Fprintln(out, l)
+			nchain++
+			if slow {
+				nslow++
+			}
+			// the coincidence that made C11-D30: the stray response carries exactly the NEXT request's id, and the next
+			// request is the same operation (so the stray body parses): it must not be taken for that request's answer
+			a2, _ := build(r, op, v, nil, false)
+			b2, _ := build(r, op, v, nil, false)
+			l, slow = chain(a2, b2, follower(a2), 1)
+			fmt.Fprintln(out, l)
+			nchain++
+			if slow {
+				nslow++
+			}
+		}
+	}
 	out.Flush()
+	fmt.Fprintf(os.Stderr, "c11 driver: %d three-operation chains after a foreign correlation id\n", nchain)
 	fmt.Fprintf(os.Stderr, "c11 driver: %d cases, %d slower than 1s (generation stops at 5)\n", ncases, nslow)
 }
